@@ -294,7 +294,7 @@ func c02One(t failer, col *collector, c c02Case) {
 
 func TestC02Exhaustive(t *testing.T) {
 	col := coll("C02", "exhaustive")
-	maxN := pick(4, 5)
+	maxN := pick(4, 6)
 	col.Rule = fmt.Sprintf("all forests <=%d nodes over {a,b} x spelling panel x (well-formed + every malformation class at every line, 2 variants) x (text + one rotating other mode) in simple mode, every 4th also in massive mode", maxN)
 	i, rot := 0, 0
 	model.EnumForests(maxN, []string{"a", "b"}, func(f model.Forest) {
